@@ -53,6 +53,10 @@ ERRNO_NAMES = ["EACCES", "ENOSPC", "EIO", "EXDEV", "ENOTEMPTY"]
 PRE_COMMIT = ("removals", "insertions")
 POST_COMMIT = ("discard", "finalize", "meta")
 FORK_PER_POINT = os.environ.get("VERIF_XFORM_FORK") == "1"
+# A run is 0.2-0.5 s of work; a fork per run costs 1-9 s on this VM under load.  Every run builds
+# its world below its own scratch directory and reopens every tree; seam + apply hook are installed
+# once and consult the Sim that owns the calling thread.  VERIF_XFORM_ISOLATION=fork: one child per run.
+ISOLATION = os.environ.get("VERIF_XFORM_ISOLATION", "thread")
 MODES = ["script", "script", "script", "script", "revert", "revert", "merge", "merge", "switch", "shelve", "unshelve"]
 
 
@@ -847,3 +851,32 @@ def execute(sim, plan):
         for e in res.get("trace_tail") or []:
             sim.event("  sub", *e)
         sim.fail(res["oracle"], res["signature"], f"[k={k} of {n}] {res['detail']}")
+
+
+def shrink_candidates(plan):
+    """Generic candidates (drop operations) + drop entries of the base tree (children with
+    their parent; operations that lose their subject are skipped by their preconditions)."""
+    import copy
+
+    from simkit.shrink import generic_candidates
+
+    yield from generic_candidates(plan)
+    for key in ("this_ops",):
+        ops = plan.get(key)
+        if isinstance(ops, list):
+            for i in range(len(ops)):
+                p2 = copy.deepcopy(plan)
+                p2[key] = ops[:i] + ops[i + 1 :]
+                yield p2
+    tree = plan.get("tree", [])
+    for i in range(len(tree) - 1, -1, -1):
+        path = tree[i][0]
+        rest = [e for e in tree if e[0] != path and not e[0].startswith(path + "/")]
+        if len(rest) >= 1:
+            p2 = copy.deepcopy(plan)
+            p2["tree"] = rest
+            yield p2
+    if plan.get("unversioned"):
+        p2 = copy.deepcopy(plan)
+        p2["unversioned"] = []
+        yield p2
